@@ -95,15 +95,16 @@ func (h *handshake) readMessage(conn net.Conn, timeout time.Duration, chunk []by
 
 	if timeout == 0 {
 		conn.SetReadDeadline(time.Time{})
+	} else {
+		// the whole message must arrive within the timeout. Setting the
+		// deadline anew for every read would let a peer that sends a byte
+		// now and then occupy the caller (the accept loop) for ever.
+		conn.SetReadDeadline(time.Now().Add(timeout))
 	}
 
 	expect := 6
 	for {
 		if len(chunk) < expect {
-			if timeout > 0 {
-				conn.SetReadDeadline(time.Now().Add(timeout))
-			}
-
 			n, err := conn.Read(b[:])
 			if err != nil {
 				return nil, nil, err
